@@ -756,6 +756,8 @@ Qed.
 (* ---------- observations that are not the crash marker ---------- *)
 Lemma ozs_nc : forall l, ozs l <> ocrash.
 Proof. intros [|z l]; discriminate. Qed.
+Lemma oopt_nc : forall o, oopt o <> ocrash.
+Proof. intros [z|]; discriminate. Qed.
 Lemma opairs_nc : forall l, opairs l <> ocrash.
 Proof. intros [|e l]; discriminate. Qed.
 Lemma content_obs_nc : forall c s, s <> StCrash -> content_obs c s <> ocrash.
@@ -837,14 +839,25 @@ Qed.
 
 (* ---------- one step: the result is the crash marker only if the new state is the crash state
               or the walk of an enumerable function fails ---------- *)
-Ltac crunch_res Hns :=
+Ltac crunch_res :=
   repeat (cbn [fst snd pure] in *;
           match goal with
           | |- snd (fst (match ?x with _ => _ end)) <> _ => destruct x
           | |- snd (fst (if ?x then _ else _)) <> _ => destruct x
           end);
   cbn [fst snd pure] in *;
-  first [ discriminate | congruence | apply ozs_nc ].
+  first [ discriminate | congruence | apply ozs_nc | apply oopt_nc ].
+
+Ltac enum_res c Hc Hen :=
+  unfold step;
+  (destruct (has_enumerable (ckind c)); cbn [negb]; [|discriminate]); specialize (Hen eq_refl);
+  (match goal with |- context [each_of ?c0 ?s0] => destruct (each_of c0 s0) as [?|] end; [|congruence]);
+  cbn [fst snd pure];
+  first [ apply opairs_nc
+        | apply content_obs_nc; first [apply select_of_nc | apply map_of_nc]; exact Hc
+        | lazymatch goal with |- obool ?b <> _ => destruct b; discriminate end
+        | (match goal with |- context [find_first ?p0 ?l0] => destruct (find_first p0 l0) as [[? ?]|] end;
+           [|destruct (is_kv (ckind c))]); discriminate ].
 
 Lemma step_result_ok : forall c s o, config_ok c -> s <> StCrash ->
   fst (fst (step c s o)) <> StCrash ->
@@ -852,23 +865,208 @@ Lemma step_result_ok : forall c s o, config_ok c -> s <> StCrash ->
   snd (fst (step c s o)) <> ocrash.
 Proof.
   intros c s o Hc Hs Hns Hen.
-  destr_op o.
-  (* enumerable functions *)
-  20-25: lazymatch goal with |- _ =>
-          destruct s; try congruence; unfold step;
-          (destruct (has_enumerable (ckind c)); cbn [negb]; [|discriminate]); specialize (Hen eq_refl);
-          (match goal with |- context [each_of ?c0 ?s0] => destruct (each_of c0 s0) as [es|] end; [|congruence]);
-          cbn [fst snd pure] end.
-  20: apply opairs_nc.
-  20-21: lazymatch goal with |- obool ?b <> _ => destruct b; discriminate end.
-  20: lazymatch goal with |- _ =>
-        destruct (find_first p es) as [[i0 v0]|]; [|destruct (is_kv (ckind c))]; discriminate end.
-  20: (apply content_obs_nc, select_of_nc; exact Hc).
-  20: (apply content_obs_nc, map_of_nc; exact Hc).
-  (* set algebra *)
-  20-25: (destruct s; try congruence; cbn [step fst snd pure]; apply set_algebra_nc; exact Hc).
-  (* Iter *)
-  19: (destruct s; try congruence; cbn [step fst snd pure]; apply run_iter_nc).
-  (* everything else *)
-  all: destruct s; try congruence; unfold step in *; crunch_res Hns.
+  destruct s; try congruence; destr_op o.
+  all: lazymatch goal with
+       | |- snd (fst (step _ _ ?op)) <> _ =>
+         lazymatch op with
+         | Each => enum_res c Hc Hen
+         | AnyP _ => enum_res c Hc Hen
+         | AllP _ => enum_res c Hc Hen
+         | FindP _ => enum_res c Hc Hen
+         | SelectP _ => enum_res c Hc Hen
+         | MapF _ => enum_res c Hc Hen
+         | Inter _ => cbn [step fst snd pure]; apply set_algebra_nc; exact Hc
+         | Union _ => cbn [step fst snd pure]; apply set_algebra_nc; exact Hc
+         | Diff _ => cbn [step fst snd pure]; apply set_algebra_nc; exact Hc
+         | InterSelf => cbn [step fst snd pure]; apply set_algebra_nc; exact Hc
+         | UnionSelf => cbn [step fst snd pure]; apply set_algebra_nc; exact Hc
+         | DiffSelf => cbn [step fst snd pure]; apply set_algebra_nc; exact Hc
+         | Iter _ => cbn [step fst snd pure]; apply run_iter_nc
+         | _ => unfold step in *; crunch_res
+         end
+       end.
 Qed.
+
+(* ================================================================================================ *)
+(* 7. the theorems of property C15                                                                  *)
+(* ================================================================================================ *)
+Theorem C15_nonneg : forall c ops, config_ok c -> 0 <= size_of c (run c ops).
+Proof. intros c ops Hc. apply ginv_size_nonneg. apply run_ginv. exact Hc. Qed.
+
+Theorem C15_len_values : forall c ops, config_ok c ->
+  size_of c (run c ops) = Z.of_nat (length (values_of c (run c ops))).
+Proof. intros c ops Hc. apply ginv_size_values. apply run_ginv. exact Hc. Qed.
+
+Theorem C15_len_keys : forall c ops, config_ok c -> is_kv (ckind c) = true ->
+  size_of c (run c ops) = Z.of_nat (length (keys_of c (run c ops))).
+Proof. intros c ops Hc Hkv. apply ginv_size_keys; [|exact Hkv]. apply run_ginv. exact Hc. Qed.
+
+(* Empty(): the component tagged TEmpty of the observation vector is the second one, it is the only
+   one with that tag, it is [size = 0], and it is true exactly when Values() is empty *)
+Theorem C15_empty : forall c ops, config_ok c ->
+  let s := run c ops in
+  nth_error (observe c 1 s) 1 = Some (TEmpty, obool (size_of c s =? 0)) /\
+  (forall o, In (TEmpty, o) (observe c 1 s) <-> o = obool (size_of c s =? 0)) /\
+  ((size_of c s =? 0) = true <-> values_of c s = []) /\
+  (is_kv (ckind c) = true -> ((size_of c s =? 0) = true <-> keys_of c s = [])).
+Proof.
+  intros c ops Hc s. pose proof (run_ginv c ops Hc) as H. fold s in H.
+  pose proof (ginv_not_crash c s H) as Hn.
+  destruct (observe_head c s Hn) as [rest E].
+  split; [rewrite E; reflexivity|]. split; [|split].
+  - intros o. split; [apply observe_empty_unique; exact Hn|].
+    intros ->. rewrite E. right. left. reflexivity.
+  - apply size0_values_nil. exact H.
+  - intros Hkv. rewrite (ginv_size_keys c s H Hkv), Z.eqb_eq.
+    destruct (keys_of c s); cbn [length]; split; intros Q; try reflexivity; try discriminate; lia.
+Qed.
+
+(* Clear() *)
+Theorem C15_clear_is_init : forall c ops, config_ok c -> fst (fst (step c (run c ops) Clear)) = init c.
+Proof. intros c ops Hc. apply ginv_clear_is_init; [exact Hc|]. apply run_ginv. exact Hc. Qed.
+
+Theorem C15_clear_then : forall c ops more, config_ok c -> run c (ops ++ Clear :: more) = run c more.
+Proof.
+  intros c ops more Hc. rewrite run_app.
+  change (run_from c (run c ops) (Clear :: more))
+    with (run_from c (fst (fst (step c (run c ops) Clear))) more).
+  rewrite (C15_clear_is_init c ops Hc). reflexivity.
+Qed.
+
+(* hence every later result, cost and observation is that of a freshly constructed container *)
+Theorem C15_clear_then_behaves : forall c ops more, config_ok c ->
+  (forall o, step c (run c (ops ++ Clear :: more)) o = step c (run c more) o) /\
+  (forall lvl, observe c lvl (run c (ops ++ Clear :: more)) = observe c lvl (run c more)).
+Proof. intros c ops more Hc. rewrite (C15_clear_then c ops more Hc). split; reflexivity. Qed.
+
+Lemma init_empty : forall c, config_ok c ->
+  size_of c (init c) = 0 /\ values_of c (init c) = [] /\ keys_of c (init c) = [].
+Proof.
+  intros c [Hbt Hcb]. unfold init. destruct (ckind c) eqn:K; unfold keys_of; cbn [size_of values_of entries_of];
+    rewrite ?K; try (repeat split; reflexivity).
+  - specialize (Hbt eq_refl). destruct (Z.ltb_spec (corder c) 3) as [L|_]; [lia|]. repeat split; reflexivity.
+  - specialize (Hcb eq_refl). destruct (Z.ltb_spec (ccap c) 1) as [L|_]; [lia|]. repeat split; reflexivity.
+Qed.
+
+Theorem C15_clear_empty : forall c ops, config_ok c ->
+  let s := run c (ops ++ [Clear]) in
+  s = init c /\ size_of c s = 0 /\ values_of c s = [] /\ keys_of c s = [].
+Proof.
+  intros c ops Hc s. assert (E : s = init c) by (unfold s; apply (C15_clear_then c ops [] Hc)).
+  split; [exact E|]. rewrite E. apply init_empty. exact Hc.
+Qed.
+
+(* observers *)
+Theorem C15_observers_pure : forall c s o, is_observer o = true ->
+  fst (fst (step c s o)) = s /\
+  forall lvl, observe c lvl (fst (fst (step c s o))) = observe c lvl s.
+Proof. intros c s o H. rewrite (observers_pure c s o H). split; reflexivity. Qed.
+
+(* ================================================================================================ *)
+(* 8. the theorems of property C17 (model part)                                                     *)
+(* ================================================================================================ *)
+Theorem C17_never_crash : forall c ops, config_ok c -> run c ops <> StCrash.
+Proof. intros c ops Hc. apply (ginv_not_crash c). apply run_ginv. exact Hc. Qed.
+
+Theorem C17_step_total : forall c ops o, config_ok c ->
+  snd (fst (step c (run c ops) o)) <> ocrash /\ fst (fst (step c (run c ops) o)) <> StCrash.
+Proof.
+  intros c ops o Hc. pose proof (run_ginv c ops Hc) as H.
+  pose proof (step_ginv c _ o Hc H) as H'.
+  split; [|apply (ginv_not_crash c); exact H'].
+  apply step_result_ok.
+  - exact Hc.
+  - apply (ginv_not_crash c). exact H.
+  - apply (ginv_not_crash c). exact H'.
+  - apply ginv_each_of. exact H.
+Qed.
+
+Theorem C17_constructor_preconditions : forall c,
+  init c = StCrash <-> (ckind c = BTree /\ corder c < 3) \/ (ckind c = CircularBuffer /\ ccap c < 1).
+Proof.
+  intros c. unfold init. destruct (ckind c) eqn:K;
+    try (split; [discriminate|intros [[Q _]|[Q _]]; discriminate Q]).
+  - destruct (Z.ltb_spec (corder c) 3) as [L|L]; split; try discriminate; try reflexivity.
+    + intros _. left. split; [reflexivity|exact L].
+    + intros [[_ Q]|[Q _]]; [lia|discriminate Q].
+  - destruct (Z.ltb_spec (ccap c) 1) as [L|L]; split; try discriminate; try reflexivity.
+    + intros _. right. split; [reflexivity|exact L].
+    + intros [[Q _]|[_ Q]]; [discriminate Q|lia].
+Qed.
+
+(* the hypothesis of all the theorems above is exactly "the constructor did not panic" *)
+Theorem C17_config_ok_iff : forall c, config_ok c <-> init c <> StCrash.
+Proof.
+  intros c. rewrite C17_constructor_preconditions. unfold config_ok. split.
+  - intros [H1 H2] [[K L]|[K L]]; [specialize (H1 K)|specialize (H2 K)]; lia.
+  - intros H. split; intros K.
+    + destruct (Z_lt_dec (corder c) 3) as [L|L]; [|lia]. exfalso. apply H. left. split; assumption.
+    + destruct (Z_lt_dec (ccap c) 1) as [L|L]; [|lia]. exfalso. apply H. right. split; assumption.
+Qed.
+
+(* a container whose constructor panicked stays crashed: every operation reports the crash *)
+Theorem C17_crash_absorbing : forall c o, step c StCrash o = (StCrash, ocrash, onone).
+Proof. intros c o. reflexivity. Qed.
+
+(* ---------- iterator scripts: no call inside a script crashes ---------- *)
+(* [step] answers an [Iter] script with the list of the per-call results; a call that would
+   dereference nil ends the list with the crash marker.  On reachable states this never happens.
+   The only caveat is a modelling one: the B-tree iterator of Model/BTreeIter.v descends with a
+   constant fuel of 64 levels, so for the BTree the statement is about trees of fewer than 2^65
+   entries (see Proofs/IterTreeBT.v). *)
+Lemma lin_cursor_nc : forall l hp cs p, ~ In ocrash (IterLinear.cursor_script_from l hp p cs).
+Proof.
+  intros l hp cs. induction cs as [|c cs IH]; intros p; [intros []|].
+  cbn [IterLinear.cursor_script_from]. intros [Q|Q]; [|exact (IH _ Q)].
+  revert Q. unfold IterLinear.cursor_call, IterLinear.land, IterLinear.cur_obs.
+  destruct c as [| | | | | |pr|pr]; try destruct hp; cbn [snd];
+    try match goal with |- context [match ?x with _ => _ end] => destruct x as [[? ?]|] end; discriminate.
+Qed.
+
+Lemma tree_cursor_nc : forall l hp cs p, ~ In ocrash (IterTreeRB.cursor_run l hp p cs).
+Proof.
+  intros l hp cs. induction cs as [|c cs IH]; intros p; [intros []|].
+  cbn [IterTreeRB.cursor_run]. intros [Q|Q]; [|exact (IH _ Q)].
+  revert Q. unfold IterTreeRB.cursor_call, IterTreeRB.c_report.
+  destruct c as [| | | | | |pr|pr]; try destruct hp; cbn [snd];
+    try match goal with |- context [match ?x with _ => _ end] => destruct x as [[? ?]|] end; discriminate.
+Qed.
+
+Theorem ginv_iter_total : forall c s cs, config_ok c -> ginv c s ->
+  (ckind c = BTree -> size_of c s < 2 ^ 65) -> ~ In ocrash (run_iter c s cs).
+Proof.
+  intros c s cs Hc H Hbt.
+  destruct (IterLinear.linear_state c s) eqn:Hl.
+  { rewrite (IterLinear.linear_iter_is_cursor c s cs Hl). apply lin_cursor_nc. }
+  pose proof (ginv_shape c s H) as Sh. unfold ginv in H.
+  destruct (ckind c) eqn:K; destruct s; try discriminate Sh; try discriminate Hl;
+    unfold IterLinear.linear_state in Hl; rewrite ?K in Hl; try discriminate Hl.
+  - (* HashSet *) cbn. intros [Q|[]]. discriminate Q.
+  - (* TreeSet *) unfold SP.set_inv in H. rewrite K in H. destruct H as (_ & _ & Hn).
+    rewrite (IterTreeRB.run_iter_treeset c t n cs K Hn). apply tree_cursor_nc.
+  - (* HashMap *) cbn. intros [Q|[]]. discriminate Q.
+  - (* TreeMap *) unfold MM.minv, MM.Generic.inv in H. rewrite K in H. destruct H as (_ & _ & Hn). cbn [fst snd] in Hn.
+    rewrite (IterTreeRB.run_iter_rb c t n cs); [apply tree_cursor_nc|right; exact K|].
+    rewrite RBMap.count_inorder. exact Hn.
+  - (* HashBidiMap *) cbn. intros [Q|[]]. discriminate Q.
+  - (* TreeBidiMap *) destruct H as (f' & fn' & i' & inn' & E & ((_ & _ & Hn) & _)). inversion E; subst.
+    cbn [fst snd] in Hn. rewrite (IterTreeRB.run_iter_treebidi c f' fn' i' inn' cs); [apply tree_cursor_nc|].
+    rewrite RBMap.count_inorder. exact Hn.
+  - (* RedBlackTree *) unfold MM.minv, MM.Generic.inv in H. rewrite K in H. destruct H as (_ & _ & Hn). cbn [fst snd] in Hn.
+    rewrite (IterTreeRB.run_iter_rb c t n cs); [apply tree_cursor_nc|left; exact K|].
+    rewrite RBMap.count_inorder. exact Hn.
+  - (* AVLTree *) unfold MM.minv, MM.Generic.inv in H. rewrite K in H. destruct H as (_ & _ & Hn).
+    rewrite (IterTreeAVL.run_iter_avl c t n cs); [apply tree_cursor_nc|].
+    rewrite Proofs.AVLMap.count_inorder. exact Hn.
+  - (* BTree *) unfold MM.minv, MM.Generic.inv in H. rewrite K in H. destruct H as ((Hinv & Hs) & Hn).
+    assert (Hm : (3 <= bt_m c)%nat) by (destruct Hc as [Hc _]; specialize (Hc K); unfold bt_m; lia).
+    specialize (Hbt eq_refl). cbn [size_of] in Hbt.
+    rewrite (IterTreeBT.run_iter_bt c r n cs); [apply tree_cursor_nc| |exact Hn].
+    apply (IterTreeBT.bt_good_of_inv (bt_m c) (kc c) r Hm Hinv Hs).
+    apply (IterTreeBT.bt_depth_ok_of_size (bt_m c) r Hm Hinv). rewrite <- Hn. exact Hbt.
+Qed.
+
+Theorem C17_iter_total : forall c ops cs, config_ok c ->
+  (ckind c = BTree -> size_of c (run c ops) < 2 ^ 65) ->
+  ~ In ocrash (run_iter c (run c ops) cs).
+Proof. intros c ops cs Hc Hb. apply ginv_iter_total; [exact Hc|apply run_ginv; exact Hc|exact Hb]. Qed.
